@@ -79,19 +79,23 @@ func (s *MultiEventSyncer) Sync(ctx context.Context, header *types.Header) error
 		return nil
 	}
 
-	syncRanges := medley.GetSyncRanges(start, end, s.MaxRequestBlockRange)
 	log.Debug().
 		Uint64("start-block", start).
 		Uint64("end-block", end).
-		Int("num-sync-ranges", len(syncRanges)).
 		Msg("starting multi event sync")
 	numEvents := 0
-	for _, r := range syncRanges {
-		numEventsInRange, err := s.syncRange(ctx, r[0], r[1])
+	for rangeStart := start; rangeStart <= end; {
+		rangeEnd := medley.GetSyncRanges(rangeStart, end, s.MaxRequestBlockRange)[0][1]
+		rangeEnd, err = s.limitRange(ctx, rangeStart, rangeEnd)
 		if err != nil {
-			return errors.Wrapf(err, "failed to sync range [%d, %d]", r[0], r[1])
+			return errors.Wrapf(err, "failed to determine the end of the range starting at %d", rangeStart)
+		}
+		numEventsInRange, err := s.syncRange(ctx, rangeStart, rangeEnd)
+		if err != nil {
+			return errors.Wrapf(err, "failed to sync range [%d, %d]", rangeStart, rangeEnd)
 		}
 		numEvents += numEventsInRange
+		rangeStart = rangeEnd + 1
 	}
 
 	log.Info().
@@ -100,6 +104,25 @@ func (s *MultiEventSyncer) Sync(ctx context.Context, header *types.Header) error
 		Int("num-events", numEvents).
 		Msg("completed multi event sync")
 	return nil
+}
+
+// limitRange shortens the range [start, end] so that it ends with the first block in which a
+// RangeLimiter processor has events.
+func (s *MultiEventSyncer) limitRange(ctx context.Context, start, end uint64) (uint64, error) {
+	for name, processor := range s.Processors {
+		limiter, ok := processor.(RangeLimiter)
+		if !ok {
+			continue
+		}
+		events, err := processor.FetchEvents(ctx, start, end)
+		if err != nil {
+			return 0, errors.Wrapf(err, "failed to fetch events for processor %s in range [%d, %d]", name, start, end)
+		}
+		if first, found := limiter.FirstEventBlock(events); found && first < end {
+			end = first
+		}
+	}
+	return end, nil
 }
 
 func (s *MultiEventSyncer) syncRange(ctx context.Context, start, end uint64) (int, error) {
